@@ -555,7 +555,8 @@ fn par_instance(tx: mpsc::Sender<Value>, seed: u64, flavor: String, exec: String
                     for i in 0..per {
                         let v = base + t * per + i;
                         if (t + i) % 2 == 0 {
-                            api.insert(k, v, 1, 0);
+                            // some writes carry a TTL: the shard's write lock then nests the expiration map's
+                            api.insert(k, v, 1, if i % 3 == 0 { 3_600_000 } else { 0 });
                         } else {
                             api.insert_only(k, v, 1);
                         }
@@ -572,7 +573,7 @@ fn par_instance(tx: mpsc::Sender<Value>, seed: u64, flavor: String, exec: String
         VLOG_ON.store(false, Ordering::SeqCst);
         verif::locks::enable(false);
         let raw = verif::locks::drain();
-        let par = |e: &&verif::locks::LockEvent| e.thread.starts_with("par-");
+        let par = |e: &&verif::locks::LockEvent| e.thread.starts_with("par-") || e.thread.starts_with("tid-");
         let (wants, rels) = (raw.iter().filter(par).filter(|e| e.kind == "want").count(), raw.iter().filter(par).filter(|e| e.kind == "rel").count());
         let _ = tx.send(json!({"ev":"Locks","locks":crate::cache::lock_events_json(raw, true),"wants":wants,"rels":rels}));
         let calls: Vec<Value> = VLOG.lock().drain(..).map(|(p, c, ok)| json!([p, c, ok])).collect();
